@@ -45,6 +45,9 @@ partial def decodeRx : Sexp → Option Rx
     match xs.reverse with
     | [] => none
     | l :: rest => pure (rest.foldl (fun b a => .alt a b) l)
+  | .list [.atom "atend", st] => st.bool?.map .atEnd
+  | .atom "atstart" => some .atStart
+  | .list [.atom "look", neg, a] => do pure (.look (← neg.bool?) (← decodeRx a))
   | .list [.atom "rep", a, mn, mx, g] => do
     let a ← decodeRx a
     let mn ← mn.nat?
